@@ -344,3 +344,24 @@ Definition sys_near_tie (thr : Z) (alpha mx : Q) (y : sys) (ev : sev) : bool :=
 
 (** The stream with the source's default threshold and alpha. *)
 Definition sys_step_default := sys_step BW_BYTES_THRESHOLD BW_ALPHA.
+
+(** Runs that also report the near-tie flag of every step (for the driver). *)
+Fixpoint run_decs_nt (alpha mx : Q) (b : bucket) (ops : list bop)
+  : list (option decision * bool) :=
+  match ops with
+  | [] => []
+  | op :: r =>
+      (snd (bstep alpha mx b op),
+       match op with
+       | Consume amt tok now => near_tie alpha mx b amt tok now
+       | Cancel _ => false
+       end) :: run_decs_nt alpha mx (fst (bstep alpha mx b op)) r
+  end.
+
+Fixpoint sys_run_nt (thr : Z) (alpha mx : Q) (y : sys) (evs : list sev) : list (sout * bool) :=
+  match evs with
+  | [] => []
+  | ev :: r =>
+      (snd (sys_step thr alpha mx y ev), sys_near_tie thr alpha mx y ev)
+      :: sys_run_nt thr alpha mx (fst (sys_step thr alpha mx y ev)) r
+  end.
